@@ -52,7 +52,7 @@ SPECS = {
             {"file": BS, "py": "CFBlackScholes._call_put", "coq": "bs_call_put", "pyargs": ["flag", "strike", "maturity"],
              "args": [("r", "R"), ("d", "R"), ("spot", "R"), ("sigma", "R"), ("flag", "R"), ("strike", "R"), ("maturity", "R")], "ret": "R",
              "attrs": {"self.bs_model.r": "r", "self.bs_model.d": "d", "self.bs_model.spot": "spot", "self.bs_model.parameters.sigma": "sigma"},
-             "consts": {"CFBlackScholes.eps": "(IZR 1 / IZR 100000000)"}, "calls": {"norm.cdf": "Phi"}},
+             "consts": {"CFBlackScholes.eps": "(IZR 1 / IZR 100000000)"}, "calls": {"norm.cdf": "Phi", "np.maximum": "Rmax"}},
             {"file": BS, "py": "CFBlackScholes.forward", "coq": "bs_forward", "pyargs": ["strike", "maturity"],
              "args": [("r", "R"), ("d", "R"), ("spot", "R"), ("strike", "R"), ("maturity", "R")], "ret": "R",
              "attrs": {"self.bs_model.r": "r", "self.bs_model.d": "d", "self.bs_model.spot": "spot"}},
